@@ -644,6 +644,9 @@ def run(ctx, res):
     _random_density(res, rng, th)
     _end_to_end(res, rng, th)
     _batched(res, rng, th)
+    # representation- and history-robustness of the public functions (harness/apirobust.py)
+    from .. import apirobust_cases as _AC
+    _AC.c14(res, np.random.default_rng(ctx["seed"] + 4242), ctx)
 
 
 def replay(data):
